@@ -87,6 +87,13 @@ def run(ctx):
     from . import plumbing
     ctx.rule("PLB-1", "value-flow provenance: the escape flag and the surrogate flag of the symbol escaper receive only their own setting (no crossed positional bools)")
     plumbing.check(ctx, lib, roles, None, want=("escape", "surrogate"))
+    # PRC-1/2 (shared with C02): an escaped unit of several \u{..} sequences under a quantifier keeps its group
+    from .C02 import prc1, prc2
+    ctx.rule("PRC-1", "precedence table: Alternation < Concatenation <= Literal < Repetition")
+    ctx.rule("PRC-2", "an operand is parenthesised iff its precedence is lower than its parent's and it is not a single code point (one grapheme can be several escape sequences)")
+    pf_ = prc1(ctx, lib)
+    if pf_ is not None:
+        prc2(ctx, lib, pf_)
     fns = find_escape_fn(lib)
     if len(fns) != 1:
         ctx.anchor_lost("ESCP-1", "per-character escaper (found %d)" % len(fns))
@@ -197,7 +204,8 @@ def run(ctx):
     for bi, t in S.calls():
         n = callee_name(t) or ""
         cb = lib.body(n)
-        if cb is not None and cb is not S and any(E.path in reachable_names(lib, cb) for _ in [0]):
+        if cb is not None and cb is not S and E.path in reachable_names(lib, cb) and S.path not in reachable_names(lib, cb):
+            # (a helper through which S calls itself for the nested repetitions is not the non-ASCII pass)
             passes.append((bi, t, cb))
     if not ctx.floor("ESCP-2", "calls of the non-ASCII pass in the symbol escaper", len(passes), 1):
         return
